@@ -91,6 +91,7 @@ inductive Pc where
   | wUnl (k : WUnl)                -- AwaitLock: unlocking store next
   | wparkedQ                       -- parked in the writers' queue
   | wparkedF                       -- parked as `_writers_first`, waiting for the counted readers
+  | wgranted                       -- taken out of the writers' queue by RunWriter, `Run` (Submit) not yet called
   | wacq                           -- owns the exclusive lock, runnable
   | wcs                            -- inside the exclusive section
   | wUn0                           -- UnlockHere: strong CAS kWriter → 0 next
@@ -102,6 +103,440 @@ inductive Pc where
   -- all three users of the spinlock
   | spinning (k : SpinK) (inner : Bool)   -- `exchange(1)` next / inside the inner `load` loop
   deriving DecidableEq, Repr
+
+/-! classification of program counters (used by the invariants; every case explicit so that the equation lemmas are unconditional) -/
+
+def Pc.isAR : Pc → Bool
+  | .idle => false
+  | .rLocked => false
+  | .rparked => false
+  | .rgranted => false
+  | .racq => true
+  | .rcs => true
+  | .rUn1 => true
+  | .rUn2 => false
+  | .rRun => false
+  | .trStart => false
+  | .trLoop _ _ => false
+  | .tryFailed => false
+  | .twLoaded => false
+  | .wLocked => false
+  | .wPost _ => false
+  | .wUnl .acq => false
+  | .wUnl .enq => false
+  | .wparkedQ => false
+  | .wparkedF => false
+  | .wgranted => false
+  | .wacq => false
+  | .wcs => false
+  | .wUn0 => false
+  | .uLocked => false
+  | .uStore _ => false
+  | .uUnl .runWriter => false
+  | .uUnl (.stored _) => false
+  | .uUnl (.readersPass _) => false
+  | .uUnl (.passOnly _) => false
+  | .uRunW _ => false
+  | .uRunR => false
+  | .spinning .rd _ => false
+  | .spinning .wr _ => false
+  | .spinning .un _ => false
+
+def Pc.isIFL : Pc → Bool
+  | .idle => false
+  | .rLocked => true
+  | .rparked => false
+  | .rgranted => false
+  | .racq => false
+  | .rcs => false
+  | .rUn1 => false
+  | .rUn2 => false
+  | .rRun => false
+  | .trStart => false
+  | .trLoop _ _ => false
+  | .tryFailed => false
+  | .twLoaded => false
+  | .wLocked => false
+  | .wPost _ => false
+  | .wUnl .acq => false
+  | .wUnl .enq => false
+  | .wparkedQ => false
+  | .wparkedF => false
+  | .wgranted => false
+  | .wacq => false
+  | .wcs => false
+  | .wUn0 => false
+  | .uLocked => false
+  | .uStore _ => false
+  | .uUnl .runWriter => false
+  | .uUnl (.stored _) => false
+  | .uUnl (.readersPass _) => false
+  | .uUnl (.passOnly _) => false
+  | .uRunW _ => false
+  | .uRunR => false
+  | .spinning .rd _ => true
+  | .spinning .wr _ => false
+  | .spinning .un _ => false
+
+def Pc.isExcl : Pc → Bool
+  | .idle => false
+  | .rLocked => false
+  | .rparked => false
+  | .rgranted => false
+  | .racq => false
+  | .rcs => false
+  | .rUn1 => false
+  | .rUn2 => false
+  | .rRun => false
+  | .trStart => false
+  | .trLoop _ _ => false
+  | .tryFailed => false
+  | .twLoaded => false
+  | .wLocked => false
+  | .wPost _ => false
+  | .wUnl .acq => true
+  | .wUnl .enq => false
+  | .wparkedQ => false
+  | .wparkedF => false
+  | .wgranted => true
+  | .wacq => true
+  | .wcs => true
+  | .wUn0 => true
+  | .uLocked => true
+  | .uStore _ => true
+  | .uUnl .runWriter => true
+  | .uUnl (.stored _) => true
+  | .uUnl (.readersPass _) => false
+  | .uUnl (.passOnly _) => false
+  | .uRunW _ => false
+  | .uRunR => false
+  | .spinning .rd _ => false
+  | .spinning .wr _ => false
+  | .spinning .un _ => true
+
+def Pc.isCntW : Pc → Bool
+  | .idle => false
+  | .rLocked => false
+  | .rparked => false
+  | .rgranted => false
+  | .racq => false
+  | .rcs => false
+  | .rUn1 => false
+  | .rUn2 => false
+  | .rRun => false
+  | .trStart => false
+  | .trLoop _ _ => false
+  | .tryFailed => false
+  | .twLoaded => false
+  | .wLocked => false
+  | .wPost _ => false
+  | .wUnl .acq => true
+  | .wUnl .enq => false
+  | .wparkedQ => false
+  | .wparkedF => false
+  | .wgranted => true
+  | .wacq => true
+  | .wcs => true
+  | .wUn0 => true
+  | .uLocked => true
+  | .uStore _ => false
+  | .uUnl .runWriter => false
+  | .uUnl (.stored _) => false
+  | .uUnl (.readersPass _) => false
+  | .uUnl (.passOnly _) => false
+  | .uRunW _ => false
+  | .uRunR => false
+  | .spinning .rd _ => false
+  | .spinning .wr _ => false
+  | .spinning .un _ => true
+
+def Pc.isHeld : Pc → Bool
+  | .idle => false
+  | .rLocked => true
+  | .rparked => false
+  | .rgranted => false
+  | .racq => false
+  | .rcs => false
+  | .rUn1 => false
+  | .rUn2 => false
+  | .rRun => false
+  | .trStart => false
+  | .trLoop _ _ => false
+  | .tryFailed => false
+  | .twLoaded => false
+  | .wLocked => true
+  | .wPost _ => true
+  | .wUnl .acq => true
+  | .wUnl .enq => true
+  | .wparkedQ => false
+  | .wparkedF => false
+  | .wgranted => false
+  | .wacq => false
+  | .wcs => false
+  | .wUn0 => false
+  | .uLocked => true
+  | .uStore _ => true
+  | .uUnl .runWriter => true
+  | .uUnl (.stored _) => true
+  | .uUnl (.readersPass _) => true
+  | .uUnl (.passOnly _) => true
+  | .uRunW _ => false
+  | .uRunR => false
+  | .spinning .rd _ => false
+  | .spinning .wr _ => false
+  | .spinning .un _ => false
+
+def Pc.isParked : Pc → Bool
+  | .idle => false
+  | .rLocked => false
+  | .rparked => true
+  | .rgranted => true
+  | .racq => false
+  | .rcs => false
+  | .rUn1 => false
+  | .rUn2 => false
+  | .rRun => false
+  | .trStart => false
+  | .trLoop _ _ => false
+  | .tryFailed => false
+  | .twLoaded => false
+  | .wLocked => false
+  | .wPost _ => false
+  | .wUnl .acq => false
+  | .wUnl .enq => false
+  | .wparkedQ => true
+  | .wparkedF => true
+  | .wgranted => true
+  | .wacq => false
+  | .wcs => false
+  | .wUn0 => false
+  | .uLocked => false
+  | .uStore _ => false
+  | .uUnl .runWriter => false
+  | .uUnl (.stored _) => false
+  | .uUnl (.readersPass _) => false
+  | .uUnl (.passOnly _) => false
+  | .uRunW _ => false
+  | .uRunR => false
+  | .spinning .rd _ => false
+  | .spinning .wr _ => false
+  | .spinning .un _ => false
+
+def Pc.isInRound : Pc → Bool
+  | .idle => false
+  | .rLocked => false
+  | .rparked => false
+  | .rgranted => false
+  | .racq => false
+  | .rcs => true
+  | .rUn1 => true
+  | .rUn2 => true
+  | .rRun => true
+  | .trStart => false
+  | .trLoop _ _ => false
+  | .tryFailed => false
+  | .twLoaded => false
+  | .wLocked => false
+  | .wPost _ => false
+  | .wUnl .acq => false
+  | .wUnl .enq => false
+  | .wparkedQ => false
+  | .wparkedF => false
+  | .wgranted => false
+  | .wacq => false
+  | .wcs => true
+  | .wUn0 => true
+  | .uLocked => true
+  | .uStore _ => true
+  | .uUnl .runWriter => true
+  | .uUnl (.stored _) => true
+  | .uUnl (.readersPass _) => true
+  | .uUnl (.passOnly _) => true
+  | .uRunW _ => true
+  | .uRunR => true
+  | .spinning .rd _ => false
+  | .spinning .wr _ => false
+  | .spinning .un _ => true
+
+def Pc.isStoredUnl : Pc → Bool
+  | .idle => false
+  | .rLocked => false
+  | .rparked => false
+  | .rgranted => false
+  | .racq => false
+  | .rcs => false
+  | .rUn1 => false
+  | .rUn2 => false
+  | .rRun => false
+  | .trStart => false
+  | .trLoop _ _ => false
+  | .tryFailed => false
+  | .twLoaded => false
+  | .wLocked => false
+  | .wPost _ => false
+  | .wUnl .acq => false
+  | .wUnl .enq => false
+  | .wparkedQ => false
+  | .wparkedF => false
+  | .wgranted => false
+  | .wacq => false
+  | .wcs => false
+  | .wUn0 => false
+  | .uLocked => false
+  | .uStore _ => false
+  | .uUnl .runWriter => false
+  | .uUnl (.stored _) => true
+  | .uUnl (.readersPass _) => false
+  | .uUnl (.passOnly _) => false
+  | .uRunW _ => false
+  | .uRunR => false
+  | .spinning .rd _ => false
+  | .spinning .wr _ => false
+  | .spinning .un _ => false
+
+def Pc.isPassUnl : Pc → Bool
+  | .idle => false
+  | .rLocked => false
+  | .rparked => false
+  | .rgranted => false
+  | .racq => false
+  | .rcs => false
+  | .rUn1 => false
+  | .rUn2 => false
+  | .rRun => false
+  | .trStart => false
+  | .trLoop _ _ => false
+  | .tryFailed => false
+  | .twLoaded => false
+  | .wLocked => false
+  | .wPost _ => false
+  | .wUnl .acq => false
+  | .wUnl .enq => false
+  | .wparkedQ => false
+  | .wparkedF => false
+  | .wgranted => false
+  | .wacq => false
+  | .wcs => false
+  | .wUn0 => false
+  | .uLocked => false
+  | .uStore _ => false
+  | .uUnl .runWriter => false
+  | .uUnl (.stored _) => false
+  | .uUnl (.readersPass _) => true
+  | .uUnl (.passOnly _) => true
+  | .uRunW _ => false
+  | .uRunR => false
+  | .spinning .rd _ => false
+  | .spinning .wr _ => false
+  | .spinning .un _ => false
+
+def Pc.isULock : Pc → Bool
+  | .idle => false
+  | .rLocked => false
+  | .rparked => false
+  | .rgranted => false
+  | .racq => false
+  | .rcs => false
+  | .rUn1 => false
+  | .rUn2 => false
+  | .rRun => false
+  | .trStart => false
+  | .trLoop _ _ => false
+  | .tryFailed => false
+  | .twLoaded => false
+  | .wLocked => false
+  | .wPost _ => false
+  | .wUnl .acq => false
+  | .wUnl .enq => false
+  | .wparkedQ => false
+  | .wparkedF => false
+  | .wgranted => false
+  | .wacq => false
+  | .wcs => false
+  | .wUn0 => false
+  | .uLocked => true
+  | .uStore _ => true
+  | .uUnl .runWriter => true
+  | .uUnl (.stored _) => true
+  | .uUnl (.readersPass _) => true
+  | .uUnl (.passOnly _) => true
+  | .uRunW _ => false
+  | .uRunR => false
+  | .spinning .rd _ => false
+  | .spinning .wr _ => false
+  | .spinning .un _ => false
+
+def Pc.isURunW : Pc → Bool
+  | .idle => false
+  | .rLocked => false
+  | .rparked => false
+  | .rgranted => false
+  | .racq => false
+  | .rcs => false
+  | .rUn1 => false
+  | .rUn2 => false
+  | .rRun => false
+  | .trStart => false
+  | .trLoop _ _ => false
+  | .tryFailed => false
+  | .twLoaded => false
+  | .wLocked => false
+  | .wPost _ => false
+  | .wUnl .acq => false
+  | .wUnl .enq => false
+  | .wparkedQ => false
+  | .wparkedF => false
+  | .wgranted => false
+  | .wacq => false
+  | .wcs => false
+  | .wUn0 => false
+  | .uLocked => false
+  | .uStore _ => false
+  | .uUnl .runWriter => false
+  | .uUnl (.stored _) => false
+  | .uUnl (.readersPass _) => false
+  | .uUnl (.passOnly _) => false
+  | .uRunW _ => true
+  | .uRunR => false
+  | .spinning .rd _ => false
+  | .spinning .wr _ => false
+  | .spinning .un _ => false
+
+def Pc.isNeedW : Pc → Bool
+  | .idle => false
+  | .rLocked => false
+  | .rparked => false
+  | .rgranted => false
+  | .racq => false
+  | .rcs => false
+  | .rUn1 => false
+  | .rUn2 => false
+  | .rRun => false
+  | .trStart => false
+  | .trLoop _ _ => false
+  | .tryFailed => false
+  | .twLoaded => false
+  | .wLocked => false
+  | .wPost _ => false
+  | .wUnl .acq => false
+  | .wUnl .enq => false
+  | .wparkedQ => false
+  | .wparkedF => false
+  | .wgranted => false
+  | .wacq => false
+  | .wcs => false
+  | .wUn0 => false
+  | .uLocked => false
+  | .uStore _ => true
+  | .uUnl .runWriter => true
+  | .uUnl (.stored _) => true
+  | .uUnl (.readersPass _) => false
+  | .uUnl (.passOnly _) => false
+  | .uRunW _ => false
+  | .uRunR => false
+  | .spinning .rd _ => false
+  | .spinning .wr _ => false
+  | .spinning .un _ => false
 
 inductive Spin where
   | free
@@ -127,6 +562,17 @@ def PW.who : PW → Option Cid
   | .b n => some n
   | .c n _ => some n
 
+/-- the reader that is about to run the pending writer -/
+def PW.by_ : PW → Option Cid
+  | .c _ r => some r
+  | _ => Option.none
+
+/-- payers are still expected -/
+def PW.isAB : PW → Bool
+  | .a _ _ => true
+  | .b _ => true
+  | _ => false
+
 inductive Agent where
   | co (c : Cid)
   | tail (c : Cid)
@@ -147,13 +593,18 @@ structure State where
   pc : Cid → Pc
   todo : Cid → List Op
   -- ghost
-  ar : List Cid            -- readers that own a shared lock (incl. granted but not yet submitted)
+  ar : List Cid            -- readers that own a shared lock and are runnable / inside / about to release
   ifl : List Cid           -- readers registered while a writer was counted, not yet through the locked section ("in flight")
   lv : List Cid            -- readers between the two atomics of UnlockHereShared
-  torun : List Cid         -- `readers` local of RunReaders
+  torun : List Cid         -- `readers` local of RunReaders: they own a shared lock but are not yet submitted
   excl : Option Cid        -- the writer that owns exclusivity (until it gives it up or hands it over)
   pw : PW
   runner : Option Cid      -- the writer inside the Run loop of RunReaders
+  wrun : Option Cid        -- the writer about to `Run` its successor (RunWriter)
+  ew : Nat                 -- 1 iff the exclusivity owner is still counted in `W`
+  enq : Nat                -- 1 iff a writer is counted in `W` but not yet linked into the queue
+  pend : Nat               -- pass credits a departing writer is about to add (PassReaders)
+  pendBy : Option Cid      -- that writer
   enters : Cid → Nat
   fails : Cid → Nat
   parks : Cid → Nat
@@ -162,7 +613,7 @@ structure State where
 def init (cfg : Cfg) : State :=
   { cfg := cfg, W := 0, R := 0, rwait := 0, spin := .free, Q := [], qsize := 0, pass := 0, wfirst := none, WQ := [], prio := 0,
     pc := fun _ => .idle, todo := cfg.prog, ar := [], ifl := [], lv := [], torun := [], excl := none, pw := .none,
-    runner := none, enters := fun _ => 0, fails := fun _ => 0, parks := fun _ => 0, grants := fun _ => 0 }
+    runner := none, wrun := none, ew := 0, enq := 0, pend := 0, pendBy := none, enters := fun _ => 0, fails := fun _ => 0, parks := fun _ => 0, grants := fun _ => 0 }
 
 inductive Label where
   | rdFadd (c : Cid)                        -- TryLockSharedAwait: `_state.fetch_add(kReader)`
@@ -246,7 +697,8 @@ def doRwFsub (s : State) (c : Cid) : State :=
 
 /-- `Run(node)` of a parked writer -/
 def doRunWriter (s : State) (c : Cid) (n : Cid) : State :=
-  { done s c with pc := upd (done s c).pc n .wacq, excl := some n, pw := .none, grants := upd s.grants n (s.grants n + 1) }
+  { done s c with pc := upd (done s c).pc n .wacq, excl := some n, ew := 1, pw := .none, wrun := none,
+                  grants := upd s.grants n (s.grants n + 1) }
 
 def doTryFail (s : State) (c : Cid) : State :=
   { done s c with fails := upd s.fails c (s.fails c + 1) }
@@ -262,17 +714,17 @@ def doTwLoad (s : State) (c : Cid) (sawZero : Bool) : State :=
   if sawZero then { s with pc := upd s.pc c .twLoaded } else failW s c
 
 def doTwCasOk (s : State) (c : Cid) : State :=
-  { s with W := 1, excl := some c, pc := upd s.pc c .wacq }
+  { s with W := 1, excl := some c, ew := 1, pc := upd s.pc c .wacq }
 
 def doWrFadd (s : State) (c : Cid) : State :=
   if s.W = 0 then
-    if s.R = 0 then { s with W := s.W + 1, wfirst := some c, excl := some c, pc := upd s.pc c (.wUnl .acq) }
+    if s.R = 0 then { s with W := s.W + 1, wfirst := some c, excl := some c, ew := 1, pc := upd s.pc c (.wUnl .acq) }
     else { s with W := s.W + 1, wfirst := some c, pw := .a c s.R, pc := upd s.pc c (.wPost s.R) }
-  else { s with W := s.W + 1, pc := upd s.pc c (.wUnl .enq) }
+  else { s with W := s.W + 1, enq := 1, pc := upd s.pc c (.wUnl .enq) }
 
 def doWrPost (s : State) (c : Cid) (r : Nat) : State :=
   if s.rwait = -(r : Int) then
-    { s with rwait := s.rwait + r, pw := .none, excl := some c, pc := upd s.pc c (.wUnl .acq) }
+    { s with rwait := s.rwait + r, pw := .none, excl := some c, ew := 1, pc := upd s.pc c (.wUnl .acq) }
   else
     { s with rwait := s.rwait + r, pw := .b c, pc := upd s.pc c .wparkedF, spin := .tailOf c,
              parks := upd s.parks c (s.parks c + 1) }
@@ -281,12 +733,12 @@ def doWUnlock (s : State) (c : Cid) (k : WUnl) : State :=
   match k with
   | .acq => { s with spin := .free, pc := upd s.pc c .wacq }
   | .enq =>
-      { s with spin := .free, WQ := s.WQ ++ [c],
+      { s with spin := .free, WQ := s.WQ ++ [c], enq := 0,
                prio := if s.cfg.fifo ∧ s.Q = [] then s.prio + 1 else s.prio,
                pc := upd s.pc c .wparkedQ, parks := upd s.parks c (s.parks c + 1) }
 
 def doWuCasOk (s : State) (c : Cid) : State :=
-  { done s c with W := 0, excl := none }
+  { done s c with W := 0, excl := none, ew := 0 }
 
 /-- the path of SlowUnlock -/
 def branchOf (s : State) : Branch :=
@@ -302,7 +754,8 @@ def givesUp : Branch → Bool
 
 def doWuFsub (s : State) (c : Cid) : State :=
   let b := branchOf s
-  { s with W := s.W - 1, excl := if givesUp b then none else s.excl,
+  { s with W := s.W - 1, ew := 0, excl := if givesUp b then none else s.excl,
+           pendBy := if givesUp b then some c else s.pendBy, pend := if givesUp b then s.R - s.qsize else s.pend,
            pc := upd s.pc c (match b with | .stored sw => .uStore sw | b => .uUnl b) }
 
 def doRwStore (s : State) (c : Cid) (sw : Nat) : State :=
@@ -310,19 +763,21 @@ def doRwStore (s : State) (c : Cid) (sw : Nat) : State :=
 
 /-- `auto readers = std::move(_readers); _readers_size = 0;`: all queued readers now own a shared lock -/
 def releaseReaders (s : State) (c : Cid) : State :=
-  { s with torun := s.Q, ar := s.ar ++ s.Q, Q := [], qsize := 0, runner := some c,
+  { s with torun := s.Q, Q := [], qsize := 0, runner := some c,
            pc := fun x => if x ∈ s.Q then .rgranted else upd s.pc c .uRunR x }
 
 def doUUnlock (s : State) (c : Cid) (b : Branch) (n : Cid) (rest : List Cid) : State :=
   match b with
   | .runWriter =>
-      { s with spin := .free, prio := if s.cfg.fifo then s.prio - 1 else s.prio, WQ := rest, pc := upd s.pc c (.uRunW n) }
+      { s with spin := .free, prio := if s.cfg.fifo then s.prio - 1 else s.prio, WQ := rest, excl := some n, ew := 1,
+               wrun := some c, pc := upd (upd s.pc n .wgranted) c (.uRunW n) }
   | .stored sw =>
       let s1 : State := { s with spin := .free, WQ := rest, wfirst := some n, prio := if s.cfg.fifo then sw - 2 else s.prio,
                                  pw := .b n, excl := none, pc := upd s.pc n .wparkedF }
       releaseReaders s1 c
-  | .readersPass sr => releaseReaders { s with spin := .free, pass := s.pass + (sr - s.qsize) } c
-  | .passOnly sr => { done s c with spin := .free, pass := s.pass + (sr - s.qsize) }
+  | .readersPass sr =>
+      releaseReaders { s with spin := .free, pass := s.pass + (sr - s.qsize), pend := 0, pendBy := none } c
+  | .passOnly sr => { done s c with spin := .free, pass := s.pass + (sr - s.qsize), pend := 0, pendBy := none }
 
 def needsWriter : Branch → Bool
   | .runWriter => true
@@ -330,7 +785,8 @@ def needsWriter : Branch → Bool
   | _ => false
 
 def doRunR (s : State) (c : Cid) (n : Cid) (rest : List Cid) : State :=
-  let s1 : State := { s with torun := rest, pc := upd s.pc n .racq, grants := upd s.grants n (s.grants n + 1) }
+  let s1 : State := { s with torun := rest, ar := n :: s.ar, pc := upd s.pc n .racq,
+                             grants := upd s.grants n (s.grants n + 1) }
   if rest = [] then { done s1 c with runner := none } else s1
 
 inductive Step : State → Label → State → Prop where
@@ -399,5 +855,256 @@ inductive Step : State → Label → State → Prop where
 inductive Reachable (cfg : Cfg) : State → Prop where
   | init : Reachable cfg (init cfg)
   | step {s l s'} : Reachable cfg s → Step s l s' → Reachable cfg s'
+
+/-- executable transition function used by the trace validator (`ymdriver`) -/
+def next (s : State) : Label → Option State
+  | .rdFadd c => if s.pc c = .idle ∧ s.todo c ≠ [] ∧ curOp s c = .rd then some (doRdFadd s c) else none
+  | .spinXchg c ok =>
+      match s.pc c with
+      | .spinning k false =>
+          if ok then (if s.spin = .free then some (doSpinOk s c k) else none)
+          else (if s.spin ≠ .free then some { s with pc := upd s.pc c (.spinning k true) } else none)
+      | _ => none
+  | .spinLoad c sawFree =>
+      match s.pc c with
+      | .spinning k true => some { s with pc := upd s.pc c (.spinning k (!sawFree)) }
+      | _ => none
+  | .rdUnlock c => if s.pc c = .rLocked ∧ s.spin = .held c then some (doRdUnlock s c) else none
+  | .enter c =>
+      if s.pc c = .racq then some (doEnter s c .rcs)
+      else if s.pc c = .wacq then some (doEnter s c .wcs) else none
+  | .exit c =>
+      if s.pc c = .rcs then some { s with pc := upd s.pc c .rUn1 }
+      else if s.pc c = .wcs then some { s with pc := upd s.pc c .wUn0 } else none
+  | .rdFsub c => if s.pc c = .rUn1 then some (doRdFsub s c) else none
+  | .rwFsub c => if s.pc c = .rUn2 then some (doRwFsub s c) else none
+  | .runFirst c n => if s.pc c = .rRun ∧ s.wfirst = some n then some (doRunWriter s c n) else none
+  | .trLoad c w r =>
+      if s.pc c = .idle ∧ s.todo c ≠ [] ∧ curOp s c = .tryRd then some { s with pc := upd s.pc c (.trLoop w r) } else none
+  | .trCas c ok =>
+      match s.pc c with
+      | .trLoop 0 r =>
+          if ok then (if s.W = 0 ∧ s.R = r then some (doTrCasOk s c) else none)
+          else some { s with pc := upd s.pc c (.trLoop s.W s.R) }
+      | _ => none
+  | .tryFail c =>
+      match s.pc c with
+      | .trLoop w _ => if w ≠ 0 then some (doTryFail s c) else none
+      | .tryFailed => some (doTryFail s c)
+      | _ => none
+  | .twLoad c sawZero =>
+      if s.pc c = .idle ∧ s.todo c ≠ [] ∧ (curOp s c = .wr ∨ curOp s c = .tryWr) then some (doTwLoad s c sawZero) else none
+  | .twCas c ok =>
+      if s.pc c = .twLoaded then
+        if ok then (if s.W = 0 ∧ s.R = 0 then some (doTwCasOk s c) else none)
+        else (if ¬ (s.W = 0 ∧ s.R = 0) then some (failW s c) else none)
+      else none
+  | .wrFadd c => if s.pc c = .wLocked ∧ s.spin = .held c then some (doWrFadd s c) else none
+  | .wrPost c =>
+      match s.pc c with
+      | .wPost r => if s.spin = .held c then some (doWrPost s c r) else none
+      | _ => none
+  | .wUnlock c =>
+      match s.pc c with
+      | .wUnl k => if s.spin = .held c then some (doWUnlock s c k) else none
+      | _ => none
+  | .tailUnlock a =>
+      match a with
+      | .tail c => if s.spin = .tailOf c then some { s with spin := .free } else none
+      | .co _ => none
+  | .wuCas c ok =>
+      if s.pc c = .wUn0 then
+        if ok then (if s.W = 1 ∧ s.R = 0 then some (doWuCasOk s c) else none)
+        else (if ¬ (s.W = 1 ∧ s.R = 0) then some { s with pc := upd s.pc c (.spinning .un false) } else none)
+      else none
+  | .wuFsub c => if s.pc c = .uLocked ∧ s.spin = .held c then some (doWuFsub s c) else none
+  | .rwStore c =>
+      match s.pc c with
+      | .uStore sw => if s.spin = .held c then some (doRwStore s c sw) else none
+      | _ => none
+  | .uUnlock c =>
+      match s.pc c with
+      | .uUnl b =>
+          if s.spin = .held c then
+            if needsWriter b = true then
+              match s.WQ with
+              | n :: rest => some (doUUnlock s c b n rest)
+              | [] => none
+            else some (doUUnlock s c b 0 [])
+          else none
+      | _ => none
+  | .runW c n => if s.pc c = .uRunW n then some (doRunWriter s c n) else none
+  | .runR c n =>
+      match s.torun with
+      | m :: rest => if s.pc c = .uRunR ∧ m = n then some (doRunR s c n rest) else none
+      | [] => none
+
+theorem next_sound {s : State} {l : Label} {s' : State} (h : next s l = some s') : Step s l s' := by
+  cases l with
+  | rdFadd c =>
+      simp only [next] at h; split at h
+      · rename_i hg; cases h; exact .rdFadd s c hg.1 hg.2.1 hg.2.2
+      · cases h
+  | spinXchg c ok =>
+      simp only [next] at h; split at h
+      · rename_i k hpc
+        cases ok with
+        | true =>
+            simp only [↓reduceIte] at h; split at h
+            · rename_i hf; cases h; exact .spinOk s c k hpc hf
+            · cases h
+        | false =>
+            simp only [Bool.false_eq_true, ↓reduceIte] at h; split at h
+            · rename_i hf; cases h; exact .spinBusy s c k hpc hf
+            · cases h
+      · cases h
+  | spinLoad c sawFree =>
+      simp only [next] at h; split at h
+      · rename_i k hpc; cases h; exact .spinLoad s c k sawFree hpc
+      · cases h
+  | rdUnlock c =>
+      simp only [next] at h; split at h
+      · rename_i hg; cases h; exact .rdUnlock s c hg.1 hg.2
+      · cases h
+  | enter c =>
+      simp only [next] at h; split at h
+      · rename_i hg; cases h; exact .enterR s c hg
+      · split at h
+        · rename_i hg; cases h; exact .enterW s c hg
+        · cases h
+  | exit c =>
+      simp only [next] at h; split at h
+      · rename_i hg; cases h; exact .exitR s c hg
+      · split at h
+        · rename_i hg; cases h; exact .exitW s c hg
+        · cases h
+  | rdFsub c =>
+      simp only [next] at h; split at h
+      · rename_i hg; cases h; exact .rdFsub s c hg
+      · cases h
+  | rwFsub c =>
+      simp only [next] at h; split at h
+      · rename_i hg; cases h; exact .rwFsub s c hg
+      · cases h
+  | runFirst c n =>
+      simp only [next] at h; split at h
+      · rename_i hg; cases h; exact .runFirst s c n hg.1 hg.2
+      · cases h
+  | trLoad c w r =>
+      simp only [next] at h; split at h
+      · rename_i hg; cases h; exact .trBegin s c w r hg.1 hg.2.1 hg.2.2
+      · cases h
+  | trCas c ok =>
+      simp only [next] at h; split at h
+      · rename_i r hpc
+        cases ok with
+        | true =>
+            simp only [↓reduceIte] at h; split at h
+            · rename_i hg; cases h; exact .trCasOk s c r hpc hg.1 hg.2
+            · cases h
+        | false =>
+            simp only [Bool.false_eq_true, ↓reduceIte] at h
+            cases h; exact .trCasFail s c r hpc
+      · cases h
+  | tryFail c =>
+      simp only [next] at h; split at h
+      · rename_i w r hpc
+        split at h
+        · rename_i hw; cases h; exact .trFail s c w r hpc hw
+        · cases h
+      · rename_i hpc; cases h; exact .tryFailW s c hpc
+      · cases h
+  | twLoad c sawZero =>
+      simp only [next] at h; split at h
+      · rename_i hg; cases h; exact .twLoad s c sawZero hg.1 hg.2.1 hg.2.2
+      · cases h
+  | twCas c ok =>
+      simp only [next] at h; split at h
+      · rename_i hpc
+        cases ok with
+        | true =>
+            simp only [↓reduceIte] at h; split at h
+            · rename_i hg; cases h; exact .twCasOk s c hpc hg.1 hg.2
+            · cases h
+        | false =>
+            simp only [Bool.false_eq_true, ↓reduceIte] at h; split at h
+            · rename_i hg; cases h; exact .twCasFail s c hpc hg
+            · cases h
+      · cases h
+  | wrFadd c =>
+      simp only [next] at h; split at h
+      · rename_i hg; cases h; exact .wrFadd s c hg.1 hg.2
+      · cases h
+  | wrPost c =>
+      simp only [next] at h; split at h
+      · rename_i r hpc
+        split at h
+        · rename_i hs; cases h; exact .wrPost s c r hpc hs
+        · cases h
+      · cases h
+  | wUnlock c =>
+      simp only [next] at h; split at h
+      · rename_i k hpc
+        split at h
+        · rename_i hs; cases h; exact .wUnlock s c k hpc hs
+        · cases h
+      · cases h
+  | tailUnlock a =>
+      simp only [next] at h; split at h
+      · rename_i c
+        split at h
+        · rename_i hs; cases h; exact .tailUnlock s c hs
+        · cases h
+      · cases h
+  | wuCas c ok =>
+      simp only [next] at h; split at h
+      · rename_i hpc
+        cases ok with
+        | true =>
+            simp only [↓reduceIte] at h; split at h
+            · rename_i hg; cases h; exact .wuCasOk s c hpc hg.1 hg.2
+            · cases h
+        | false =>
+            simp only [Bool.false_eq_true, ↓reduceIte] at h; split at h
+            · rename_i hg; cases h; exact .wuCasFail s c hpc hg
+            · cases h
+      · cases h
+  | wuFsub c =>
+      simp only [next] at h; split at h
+      · rename_i hg; cases h; exact .wuFsub s c hg.1 hg.2
+      · cases h
+  | rwStore c =>
+      simp only [next] at h; split at h
+      · rename_i sw hpc
+        split at h
+        · rename_i hs; cases h; exact .rwStore s c sw hpc hs
+        · cases h
+      · cases h
+  | uUnlock c =>
+      simp only [next] at h; split at h
+      · rename_i b hpc
+        split at h
+        · rename_i hs
+          split at h
+          · rename_i hb
+            split at h
+            · rename_i n rest hq; cases h; exact .uUnlockW s c b n rest hpc hs hb hq
+            · cases h
+          · rename_i hb
+            cases h
+            exact .uUnlockP s c b hpc hs (by cases hnb : needsWriter b <;> simp_all)
+        · cases h
+      · cases h
+  | runW c n =>
+      simp only [next] at h; split at h
+      · rename_i hg; cases h; exact .runW s c n hg
+      · cases h
+  | runR c n =>
+      simp only [next] at h; split at h
+      · rename_i m rest ht
+        split at h
+        · rename_i hg; cases h; obtain ⟨hpc, hm⟩ := hg; subst hm; exact .runR s c m rest hpc ht
+        · cases h
+      · cases h
 
 end Yaclib.CoSharedMutex
